@@ -8,7 +8,7 @@
    streams without entries, any label bytes). *)
 From Coq Require Import List ZArith NArith Bool Ascii String Lia.
 From Coq Require Permutation.
-From Qryn Require Import gen.DecodeConsts model.Decode proofs.DecodeProofs model.LokiLabels proofs.LokiLabelsProofs model.LokiTime proofs.LokiTimeProofs model.LokiJson proofs.LokiJsonProofs.
+From Qryn Require Import gen.DecodeConsts model.Decode proofs.DecodeProofs model.LokiLabels proofs.LokiLabelsProofs model.LokiTime proofs.LokiTimeProofs model.LokiJson proofs.LokiJsonProofs model.DatadogJson proofs.DatadogJsonProofs.
 Import ListNotations.
 Open Scope Z_scope.
 
@@ -254,6 +254,15 @@ Theorem entries_element_read :
 Proof. exact entry_entry_written. Qed.
 Print Assumptions entries_element_read.
 
+(* ---------------------------------------------------------------- Datadog log tags (tagPattern, model/DatadogJson.v) *)
+
+(* tags written k1:v1,k2:v2,... -- every key a letter followed by letters, digits and _ - . \ / ; every value a non-empty run of
+   those and colons -- are found as exactly that list: none is dropped, merged with its neighbour or cut at a colon of its value *)
+Theorem datadog_tags_read_back :
+  forall (uletter : string -> bool) (ts : labels), forallb tag_ok ts = true -> dd_tags uletter (print_tags ts) = ts.
+Proof. exact dd_tags_written_l. Qed.
+Print Assumptions datadog_tags_read_back.
+
 (* the hypotheses above are met by non-trivial values; the model computes *)
 Example onentries_hypothesis_met :
   Forall call_wf [K [("app", "a")]%string [1; 2] [""; "x"]%string [0; 0]%N [1; 1]%N; K [] [] [] [] []].
@@ -319,3 +328,9 @@ Example entries_element_hypotheses_met :
   wentry_ts (fun s => if String.eqb s "2023-11-14T22:13:20Z" then Some 1700000000000000000 else None) (true, "2023-11-14T22:13:20Z"%string, Some "l"%string, Some 3%N)
   = Some 1700000000000000000 /\ wentry_ts (fun _ => None) (false, "-5"%string, None, None) = Some (-5).
 Proof. vm_compute. split; reflexivity. Qed.
+
+Example datadog_tags_hypotheses_met :
+  let ts := [("env", "prod"); ("app.kubernetes.io/name", "pod-7f9c"); ("k", "host:8080"); ("a-b.c", "::")]%string in
+  forallb tag_ok ts = true /\ print_tags ts = "env:prod,app.kubernetes.io/name:pod-7f9c,k:host:8080,a-b.c:::"%string /\
+  dd_tags (fun _ => false) "bad,9env:prod, x:1,k:v w,_k:v"%string = [("env", "prod"); ("x", "1"); ("k", "v")]%string.
+Proof. vm_compute. repeat split. Qed.
